@@ -307,6 +307,14 @@ def class_source(rec):
         lines += ["", deco(), f"class {name}({name}Mid):"] + body(sub_attrs)
     else:
         raise ValueError(inherit)
+    if o.get("flip_sub"):
+        # a spec subclass with the OPPOSITE copy policy, bootstrapped right away: nothing it does to the attribute
+        # specifications it inherits may leak into the (judged) parent class
+        names = [attr_name(a) for a in attrs]
+        mine = o.get("do_not_copy") if isinstance(o.get("do_not_copy"), list) else []
+        flipped = [n for n in names if n not in mine]
+        lines += ["", f"@spec_class(do_not_copy={flipped!r})" if flipped else "@spec_class", f"class {name}Flip({name}):", "    pass",
+                  f"{name}Flip.__spec_class__"]
     return "\n".join(lines) + "\n"
 
 
@@ -446,6 +454,12 @@ class Env:
             if tag == "self":
                 return self.cls
             raise ValueError(spec)
+        # "fresh object" also for immutable leaves (as far as CPython allows): whether an argument IS the stored
+        # value must not depend on whether the op came from the generator or from a JSON replay file
+        if type(spec) is float:
+            return float(repr(spec))
+        if type(spec) is str and len(spec) > 1:
+            return "".join(list(spec))
         return spec
 
 
@@ -550,6 +564,16 @@ def lookup_records():
     ]
 
 
+def twin_records():
+    """two attributes of the same kind, so that one object can sit at two places of the same instance"""
+    return [
+        {"name": "TwinNums", "attrs": [{"kind": "nums", "default": "mut"}, {"kind": "nums", "default": "mut", "name": "nums2"}, {"kind": "int", "default": "lit"}],
+         "opts": {"alias_pairs": [["nums", "nums2"]]}},
+        {"name": "TwinLeaf", "attrs": [{"kind": "leaf", "default": "mut"}, {"kind": "leaf", "default": "none", "name": "leaf2"}, {"kind": "kids", "default": "mut"}],
+         "opts": {"alias_pairs": [["leaf", "leaf2"]]}},
+    ]
+
+
 def env_roots(env):
     """objects outside every instance that no helper call may change"""
     return {"TABLE": env.ns["TABLE"], "FTABLE": env.ns["FTABLE"]}
@@ -584,6 +608,8 @@ def quick_family():
         single("nums", "mut", inherit="plain_sub_redefault"),
         single("int", "lit", inherit="spec_sub_redefault"),
         single("leaf", "mut", inherit="plain_sub_redefault"),
+        single("nums", "mut", flip_sub=True),
+        single("kids", "mut", do_not_copy=["kids"], flip_sub=True),
         single("nums", "mut", post_copy=True),
         single("nums", "mut", post_init=True),
     ]
